@@ -453,5 +453,7 @@ func NewCSMS(endpoint *ocppj.Server, server ws.Server) CSMS {
 	cs.server.SetCanceledRequestHandler(func(clientID string, requestID string, request ocpp.Request, err *ocpp.Error) {
 		cs.handleCanceledRequest(clientID, request, err)
 	})
+	// Pending callbacks of a disconnected charging station are always concluded, even if the application never registers a handler
+	cs.SetChargingStationDisconnectedHandler(func(chargingStation ChargingStationConnection) {})
 	return &cs
 }
